@@ -235,6 +235,50 @@ pub fn run(o: &Opts) {
       }
     }
   }
+  // ---- sibling searches to the end (`follows` / `precedes` with stopBy: end) started from the zero-width nodes the
+  //      parser invents at the end of a text that stops inside a list: they must terminate
+  {
+    let d4 = fresh_dir(&o.out, "truncated_lists");
+    let cases: [(&str, &str, &str, &[&str]); 3] = [
+      ("json", "json", "number", &["[\n  \"a\",\n  \"b\",", "{\"k\": [1, 2,", "[[1, [2,", "{\"a\": {\"b\": "]),
+      ("TypeScript", "ts", "identifier", &["foo(a, b,", "let x = [a, b,", "class A { m(a,", "f(g(h("]),
+      ("Python", "py", "identifier", &["foo(a, b,", "x = [a, b,", "def f(a,", "print(f(g("]),
+    ];
+    // JSON arrays of n elements cut after a separator, on one line or one element per line, bare or as the value of a
+    // pair without its object: which of them end in zero-width `number` / `]` nodes depends on the recovery
+    let mut json_family: Vec<String> = vec![];
+    for n in if o.thorough { vec![1usize, 2, 3, 4, 5, 6, 7, 8] } else { vec![3, 5, 6] } {
+      for sep in [",", ",\n"] {
+        for prefix in ["", "\"e\": "] {
+          for elem in ["\"a\"", "1"] {
+            json_family.push(format!("{prefix}[{}", format!("{elem}{sep}").repeat(n)));
+          }
+        }
+      }
+    }
+    let json_refs: Vec<&str> = json_family.iter().map(|x| x.as_str()).collect();
+    for (lang, ext, kind, texts) in cases.iter().map(|c| (c.0, c.1, c.2, c.3.to_vec())).chain(std::iter::once(("json", "json", "number", json_refs.clone()))) {
+      for rel in ["follows", "precedes"] {
+        std::fs::write(d4.join("rule.yml"), format!("id: sib\nlanguage: {lang}\nseverity: warning\nmessage: m\nrule:\n  kind: {kind}\n  {rel}:\n    regex: '^no sibling reads like this$'\n    stopBy: end\n---\nid: sib2\nlanguage: {lang}\nmessage: m\nrule:\n  kind: {kind}\n  {rel}:\n    kind: {kind}\n    regex: '^nor like this$'\n    stopBy: end\n")).unwrap();
+        for text in &texts {
+          let f = format!("t.{ext}");
+          std::fs::write(d4.join(&f), text).unwrap();
+          let r = sg(&d4, &["scan", "-r", "rule.yml", "--json=stream", &f], None, 15);
+          out.checked();
+          out.count("sibling-searches-on-truncated-lists");
+          if matches!(r.code, Some(0) | Some(1)) {
+            out.nontrivial(&(lang, rel, *text));
+          } else if !r.timed_out {
+            out.count("sibling-searches-on-truncated-lists:configuration-rejected(inert)");
+          }
+          if r.timed_out || r.code.is_none() || matches!(r.code, Some(101) | Some(134) | Some(139)) {
+            out.oracle_fail("", &format!("a {lang} rule with `{rel}: {{stopBy: end}}` on the truncated text {text:?}: exit {:?} timed_out={} ({})", r.code, r.timed_out,
+              r.stderr.lines().find(|l| l.contains("panicked") || l.contains("overflow")).unwrap_or("").chars().take(200).collect::<String>()), json!({"stream": "c11-truncated", "lang": lang, "relation": rel, "source": text}));
+          }
+        }
+      }
+    }
+  }
   crate::c11case::run_case_tie(&mut out, &mut rng, if o.thorough { 6000 } else { 1500 });
   out.finish("rule documents from 22 generators (extreme / non-numeric nthChild and substring numbers, An+B strings at the i32 limits, empty / multi-byte / sigil-only transform sources, invalid regexes in regex / replace / expansions, \
               convert on multi-byte acronyms, ranges, reference cycles through all/any/not/matches, nthChild.ofRule and relational rules, cyclic and dangling transformations, rewriters with expanding fixes and unknown ids, \
